@@ -833,6 +833,10 @@ def op_checkmultisig(stack, tx_obj, input_index):
                 if point.verify(z, sig):
                     # break if so, this sig is valid!
                     break
+            else:
+                # ran out of points without finding one that verifies this sig
+                print("signatures no good or not in right order")
+                return False
         # if we made it this far, we have to add a 1 to the stack
         # use encode_num(1)
         stack.append(encode_num(1))
